@@ -344,16 +344,23 @@ def run_sched_case(case, twin, repo):
                             q = dict(pp, _built=params["_built"]) if pp.get("share_opts") else dict(pp)
                             o = make_scheduler(pk, space, q, pert.randrange(2 ** 31))
                             others.append([o, 1000])
+                            # lazily configured parts (bracket distribution, searcher) are set up by the first
+                            # suggest: the unrelated instance is USED before the scheduler under test
+                            sg = o.suggest(1000)
+                            if sg is not None and sg.spawn_new_trial_id:
+                                tr0 = Trial(1000, sg.config, T0)
+                                o.on_trial_add(tr0)
+                                o.on_trial_result(tr0, {"loss": pert.random(), "epoch": 1, "elapsed_time": 1.0})
+                            others[-1][1] = 1001
                         except Exception:
                             pass
 
                 if twin == "B":
                     pollute()
                 sched = rec.call("__init__", make_scheduler, case["kind"], space, params, case["random_seed"])
-                if twin != "B":
-                    pollute()
             finally:
                 NO_CLOCK[0] = False
+            polluted = (twin == "B")
             max_t = case["params"].get("max_t", 4)
             workers = case["workers"]
             running, paused_epoch, configs = {}, {}, {}
@@ -362,6 +369,11 @@ def run_sched_case(case, twin, repo):
                 perturb(pert)
                 other_step()
                 perturb(pert)
+                if not polluted and step >= 1:
+                    # twin A: the unrelated instances appear only AFTER its own first suggest (twin B was
+                    # constructed and used after them)
+                    pollute()
+                    polluted = True
                 ids = sorted(running)
                 if len(ids) < workers and (not ids or ev.random() < 0.45):
                     s = rec.call("suggest", sched.suggest, next_id)
